@@ -13,6 +13,17 @@ PROOF_NOTE = ("Trusted: Lean 4.33 kernel + axioms propext/Classical.choice/Quot.
               "tables/constants (Strophe/Gen). ")
 
 CLAIMED = {
+    "C16": dict(
+        engine="smblob", design="5.16",
+        technique="Lean 4 round-trip / strictness / bounds-safety theorems over a byte-level model of the SM blob codec + full-state differential correspondence on a real connection object",
+        text=("restore_serialize (every serialisable state restores to the same counters, id, both queues with texts, order and "
+              "sequence numbers), restore_strict (an accepted blob IS the serialisation of the state it produced: truncated, "
+              "extended or altered blobs are refused), restore_safe (no read outside the buffer for any bytes: the checked "
+              "accessor's oob outcome is unreachable), reject_leaves_fresh / reject_clean, offline_only, and "
+              "restored_queues_like_native (the restored state satisfies the C06 queue invariant, so all C06 theorems apply). "
+              "Tied to conn.c every run: blobs from the real serializer, every truncation, forged tags/lengths/counts, then queue "
+              "operations on the restored object, comparing the complete internal state."),
+        note=PROOF_NOTE + "Restore target is a fresh connection object; allocation failures not modelled."),
     "C06": dict(
         engine="q", design="5.6",
         technique="Lean 4 invariant + refinement theorems over arbitrary operation histories (induction over List Op) + full-state differential correspondence on a real connection object",
